@@ -222,8 +222,12 @@ func main() {
 		leg   string
 		share int
 	}{{"leader", 49}, {"follower", 34}, {"reelect", 8}, {"snapshot", 7}, {"overlap", 2}, {"cancel", 1}, {"tail", 1}}
+	cum := 0
 	for _, lg := range legs {
 		t0 := time.Now()
+		// every leg gets its share of the process's life
+		cum += lg.share
+		legDeadline := processStart.Add(maxProcessLife * time.Duration(cum) / 100)
 		legBudget := budget * lg.share / 100
 		r := rng.Fork()
 		perWorkload := 12
@@ -231,8 +235,8 @@ func main() {
 			perWorkload = 1 << 30
 		}
 		for used := 0; used < legBudget; {
-			if time.Since(processStart) > maxProcessLife {
-				o.Count("stopped:process-life-limit")
+			if time.Now().After(legDeadline) {
+				o.Count("stopped:process-life-limit:" + lg.leg)
 				break
 			}
 			p := params{leg: lg.leg, wseed: r.U64() >> 1, crashAt: -1, mode: "p", restart: "leader"}
@@ -257,7 +261,7 @@ func main() {
 				kk = 16
 			}
 			for _, cp := range crashPoints(wr, total, startOps, kk, thorough) {
-				if time.Since(processStart) > maxProcessLife {
+				if time.Now().After(legDeadline) {
 					break
 				}
 				q := p
